@@ -259,12 +259,23 @@ def expected_with_failures(cfg) -> Optional[List[Any]]:
         if cfg["kind"] != "iter_it_state":
             return None  # generator-based datasets die on the first exception (Python semantics)
         per_worker = []
+        sfail = set(cfg.get("state_fail") or ())
         for w, sz in enumerate(cfg["sizes"]):
             items = [1000 * w + i for i in range(sz)]
             if bs is None:
                 per_worker.append([("error", "ValueError") if x in fail else (("error", "KeyError") if x in cfail else ("item", x)) for x in items])
             else:
-                per_worker.append(batches_of_items(items))
+                bl = batches_of_items(items)
+                if sfail:
+                    # the worker's state_dict() is taken right after each batch (snapshot interval 1, workers > 0):
+                    # a raising state_dict() is an error of the dataset at that batch
+                    pos = 0
+                    for bi, b in enumerate(bl):
+                        if b[0] == "item":
+                            pos += len(b[1])
+                            if (1000 * w + pos) in sfail:
+                                bl[bi] = ("error", "ValueError")
+                per_worker.append(bl)
         # round robin with drop-out
         out, idx = [], [0] * len(per_worker)
         alive = [True] * len(per_worker)
@@ -305,7 +316,20 @@ def check_c10(ctx: Ctx, job):
     if cfg.get("init_fail"):
         sess = session_for(pol, seed, cfg["W"])
         with sess as s:
+            pre = None
+            if job.get("preload"):
+                # a start-up failure AFTER a state was loaded must surface the same way
+                clean = {k: v for k, v in cfg.items() if k != "init_fail"}
+                l0 = sdl.build(clean)
+                it0 = iter(l0)
+                sdl.take(it0, s)
+                s.begin_op()
+                pre = pickle.loads(pickle.dumps(l0.state_dict()))
+                del l0, it0
+                gc.collect()
             loader = sdl.build(cfg)
+            if pre is not None:
+                loader.load_state_dict(pre)
             s.begin_op()
             try:
                 it = iter(loader)
@@ -347,6 +371,8 @@ def check_c10(ctx: Ctx, job):
         del loader
         gc.collect()
     nerr = sum(1 for o in want1 if o[0] == "error")
+    if cfg.get("state_fail"):
+        ctx.count("state_dict_raises")
     ctx.case("ko_c10", [cfg, pol], nerr > 0 and cfg["W"] > 0)
     ctx.count("errors_in_epoch:%d" % min(nerr, 3))
     ctx.count("W:%d" % cfg["W"])
@@ -369,13 +395,33 @@ def gen_c10(ctx: Ctx, n: int):
         items = ([1000 * w + j for w, sz in enumerate(cfg["sizes"]) for j in range(sz)] if sdl.is_iter(cfg) else list(range(cfg["n"])))
         r = ctx.rng.random()
         k = 0 if not items else ctx.rng.choice([1, 1, 2, 3])
-        if r < 0.7:
+        if i % 6 == 5:
+            # mode: the dataset iterator's state_dict() raises right after a full, non-final batch
+            cfg["kind"] = "iter_it_state"
+            cfg["W"] = max(cfg["W"], ctx.rng.choice([1, 2, 3]))
+            cfg.setdefault("pf", 2)
+            cfg.setdefault("persistent", False)
+            cfg["bs"] = cfg["bs"] or 2
+            cfg["interval"] = 1
+            cfg.pop("n", None)
+            cfg.pop("sampler", None)
+            cfg["sizes"] = [ctx.rng.choice([3, 4, 5, 6, 7]) for _ in range(cfg["W"])]
+            cands = [1000 * w + kk * cfg["bs"] for w, sz in enumerate(cfg["sizes"]) for kk in range(1, sz // cfg["bs"] + 1) if kk * cfg["bs"] < sz]
+            if cands:
+                cfg["state_fail"] = sorted(ctx.rng.sample(cands, min(len(cands), ctx.rng.choice([1, 1, 2]))))
+            r = 2.0
+        if r > 1.0:
+            pass
+        elif r < 0.7:
             cfg["fail"] = sorted(ctx.rng.sample(items, min(k, len(items))))
         elif r < 0.9:
             cfg["collate_fail"] = sorted(ctx.rng.sample(items, min(k, len(items))))
         elif cfg["W"] > 0:
             cfg["init_fail"] = [ctx.rng.randrange(cfg["W"])]
-        jobs.append({"cfg": cfg, "seed": ctx.rng.randrange(1 << 30), "policy": ctx.rng.choice(POLICIES)})
+        job = {"cfg": cfg, "seed": ctx.rng.randrange(1 << 30), "policy": ctx.rng.choice(POLICIES)}
+        if cfg.get("init_fail"):
+            job["preload"] = ctx.rng.random() < 0.6
+        jobs.append(job)
     return jobs
 
 
